@@ -703,6 +703,29 @@ func HandleUpdateUser(cc *hotline.ClientConn, t *hotline.Transaction) (res []hot
 			if err != nil {
 				return res
 			}
+
+			// Notify connected clients logged in as the user of the new access level, as HandleSetUser does.
+			for _, c := range cc.Server.ClientMgr.List() {
+				if c.Account.Login == accountToUpdate {
+					res = append(res, hotline.NewTransaction(hotline.TranUserAccess, c.ID, hotline.NewField(hotline.FieldUserAccess, acc.Access[:])))
+
+					c.Account.Access = acc.Access
+
+					if c.Authorize(hotline.AccessDisconUser) {
+						c.Flags.Set(hotline.UserFlagAdmin, 1)
+					} else {
+						c.Flags.Set(hotline.UserFlagAdmin, 0)
+					}
+
+					cc.SendAll(
+						hotline.TranNotifyChangeUser,
+						hotline.NewField(hotline.FieldUserID, c.ID[:]),
+						hotline.NewField(hotline.FieldUserFlags, c.Flags[:]),
+						hotline.NewField(hotline.FieldUserName, c.UserName),
+						hotline.NewField(hotline.FieldUserIconID, c.Icon),
+					)
+				}
+			}
 		} else {
 			if !cc.Authorize(hotline.AccessCreateUser) {
 				return cc.NewErrReply(t, "You are not allowed to create new accounts.")
